@@ -221,10 +221,20 @@ func TestVerifReplayC17(t *testing.T) {
 			for i := range pool {
 				for j := range pool {
 					for k := -1; k < len(pool); k++ {
-						changes := []lsp.TextDocumentContentChangeEvent{pool[i], pool[j]}
-						if k >= 0 {
-							changes = append(changes, pool[k])
+						// fresh copies: the code under test normalises ranges in place, and a shared *Range would
+						// carry one iteration's clamping into the next
+						fresh := func(c lsp.TextDocumentContentChangeEvent) lsp.TextDocumentContentChangeEvent {
+							if c.Range != nil {
+								r := *c.Range
+								c.Range = &r
+							}
+							return c
 						}
+						changes := []lsp.TextDocumentContentChangeEvent{fresh(pool[i]), fresh(pool[j])}
+						if k >= 0 {
+							changes = append(changes, fresh(pool[k]))
+						}
+						sent, _ := json.Marshal(changes)
 						notes++
 						want := start
 						okAll := true
@@ -257,7 +267,7 @@ func TestVerifReplayC17(t *testing.T) {
 							return nil
 						}()
 						if p != nil || got != want {
-							js, _ := json.Marshal(changes)
+							js := sent
 							fmt.Printf("REPLAY-CONFIRMED notification: document %q, one didChange with the changes %s: server copy %q (panic/err=%v), editor %q\n", start, js, got, p, want)
 							return
 						}
